@@ -29,6 +29,9 @@ def run_case(case, R):
 
     async def main(loop):
         w = IpWorld(loop, k=case.get("k", 0))
+        w.acc.header_names = case.get("hdr", "title")
+        w.acc.verify_delay = case.get("vdelay", 0.0)
+        spell = {"title": bytes, "lower": bytes.lower, "upper": bytes.upper}[case.get("hdr", "title")]
         p = w.pairing
         pending = []         # (conn, rid) requests the accessory has received and not answered
         partial = []         # [conn, remaining wire bytes] of a response delivered in part
@@ -59,14 +62,14 @@ def run_case(case, R):
 
         def response_wire(conn, rid):
             body = json.dumps({"characteristics": [{"aid": 1, "iid": rid, "value": rid}]}, separators=(",", ":")).encode()
-            msg = b"HTTP/1.1 200 OK\r\nContent-Type: application/hap+json\r\nContent-Length: %d\r\n\r\n" % len(body) + body
+            msg = b"HTTP/1.1 200 OK\r\n" + spell(b"Content-Type") + b": application/hap+json\r\n" + spell(b"Content-Length") + b": %d\r\n\r\n" % len(body) + body
             return conn.encrypt(msg, [40, 1024])
 
         def event_wire(conn):
             ev_counter[0] += 1
             v = ev_counter[0]
             body = json.dumps({"characteristics": [{"aid": 1, "iid": 9, "value": v}]}, separators=(",", ":")).encode()
-            msg = b"EVENT/1.0 200 OK\r\nContent-Type: application/hap+json\r\nContent-Length: %d\r\n\r\n" % len(body) + body
+            msg = b"EVENT/1.0 200 OK\r\n" + spell(b"Content-Type") + b": application/hap+json\r\n" + spell(b"Content-Length") + b": %d\r\n\r\n" % len(body) + body
             events_sent.append((conn.index, v))
             return conn.encrypt(msg, [1024])
 
@@ -104,8 +107,14 @@ def run_case(case, R):
                     else:
                         r["outcome"] = ("ok", t.result())
                     out = r["outcome"]
-                    if out[0] == "ok" and out[1] != {(1, rid): {"value": rid}}:
+                    want = {"characteristics": [{"aid": 1, "iid": rid, "value": rid}]} if r.get("raw") else {(1, rid): {"value": rid}}
+                    if out[0] == "ok" and out[1] != want:
                         R.fail("C08.wrong-response", f"{where}: request {rid} completed with {out[1]!r:.200}", got="other-request" if out[1] else "empty")
+                    elif (out[0] == "exc" and isinstance(out[1], AccessoryDisconnectedError) and r.get("answered") and not r.get("we_cancelled")
+                          and not any(ci == r["answered"][1] and dt <= now + EPS for dt, ci, _ in disconnects)):
+                        # the accessory sent the whole response on a connection nobody dropped, cancelled on or timed out on
+                        R.fail("C08.response-lost", f"{where}: request {rid} was answered in full at t={r['answered'][0]} on connection {r['answered'][1]}, which no one "
+                                                    f"dropped, yet it failed with {out[1]!r:.100}", exc="AccessoryDisconnectedError")
                     elif out[0] == "exc" and not isinstance(out[1], AccessoryDisconnectedError):
                         R.fail("C08.wrong-error", f"{where}: request {rid} failed with {type(out[1]).__name__}: {out[1]}", exc=type(out[1]).__name__)
                     elif out[0] == "cancelled" and not r.get("we_cancelled"):
@@ -142,15 +151,19 @@ def run_case(case, R):
               try:
                     name = op[0]
                     conn = live_conn()
-                    if name == "req":
+                    if name in ("req", "raw"):
                         i = op[1] % NCALLERS
                         if callers[i] is not None and not callers[i].done():
                             raise Pruned
                         rid = next_rid[0]
                         next_rid[0] += 1
-                        t = asyncio.ensure_future(p.get_characteristics([(1, rid)]))
+                        if name == "raw":
+                            # straight to the connection object, without waiting for a session first (request() must refuse or serve it)
+                            t = asyncio.ensure_future(p.connection.get_json(f"/characteristics?id=1.{rid}"))
+                        else:
+                            t = asyncio.ensure_future(p.get_characteristics([(1, rid)]))
                         callers[i] = t
-                        reqs[rid] = {"task": t, "issued": loop.time(), "done_at": None, "outcome": None, "caller": i}
+                        reqs[rid] = {"task": t, "issued": loop.time(), "done_at": None, "outcome": None, "caller": i, "raw": name == "raw"}
                     elif name in ("ans", "ans-split", "ans+event", "ans-part"):
                         if conn is None or partial:
                             raise Pruned
@@ -159,23 +172,27 @@ def run_case(case, R):
                             raise Pruned
                         _, rid = pending.pop(j)
                         wire = response_wire(conn, rid)
+                        if name != "ans-part" and rid in reqs:
+                            reqs[rid]["answered"] = (loop.time(), conn.index)
                         if name == "ans":
                             conn.send_wire(wire)
                         elif name == "ans-split":
-                            conn.send_wire(wire, cuts=[op[1] % len(wire), (op[1] * 7 + 3) % len(wire)])
+                            conn.send_wire(wire, cuts=[op[1] % len(wire), (op[1] * 7 + 3) % len(wire), len(wire) - 1 - op[1] % 9])
                         elif name == "ans+event":
                             wire2 = wire + event_wire(conn)
                             conn.send_wire(wire2, cuts=[op[1] % len(wire2), len(wire) - 1 - (op[1] % 3), len(wire) + (op[1] % 5)])
                         else:
                             cut = 1 + op[1] % (len(wire) - 1)
                             conn.send_wire(wire[:cut])
-                            partial.append([conn, wire[cut:]])
+                            partial.append([conn, wire[cut:], rid])
                     elif name == "ans-rest":
                         if not partial:
                             raise Pruned
-                        c, rest = partial.pop()
+                        c, rest, *prid = partial.pop()
                         if c.open and not c.peer_closed:
                             c.send_wire(rest)
+                            if prid and prid[0] in reqs and not c.t.is_closing():
+                                reqs[prid[0]]["answered"] = (loop.time(), c.index)
                     elif name == "event":
                         if conn is None or partial:
                             raise Pruned
@@ -349,6 +366,12 @@ ALPHABET_FULL = ALPHABET_QUICK + [("req", 2), ("cancel", 1), ("adv", 0.1), ("adv
 
 
 def enum_dfs(tier):
+    # a request handed to the connection while the last pair-verify round trip of a reconnection is outstanding
+    for first in (["fin"], ["reset"]):
+        for gap in (0.1, 0.2):
+            yield {"ops": [["req", 0], ["ans"], first, ["adv", gap], ["raw", 1], ["adv", 0.1], ["raw", 2], ["adv", 1.0], ["req", 0], ["ans"]], "vdelay": 0.3, "lenient": True}
+    for hdr in ("lower", "upper"):
+        yield {"ops": [["req", 0], ["ans"], ["req", 1], ["ans+event", 11], ["req", 0], ["ans-split", 5], ["event"], ["req", 2], ["ans"]], "hdr": hdr}
     alpha = ALPHABET_QUICK if tier == "quick" else ALPHABET_FULL
     depth = 4 if tier == "quick" else 5
     for d in range(1, depth + 1):
@@ -378,8 +401,8 @@ def histories(draw):
     ops = []
     for _ in range(n):
         name = draw(st.sampled_from(["req", "req", "req", "ans", "ans", "ans-split", "ans+event", "ans-part", "ans-rest", "event", "cancel",
-                                     "adv", "fin", "reset", "unsolicited", "close", "stall", "drain"]))
-        if name in ("req", "cancel"):
+                                     "adv", "fin", "reset", "unsolicited", "close", "stall", "drain", "raw"]))
+        if name in ("req", "cancel", "raw"):
             ops.append([name, draw(st.integers(0, NCALLERS - 1))])
         elif name in ("ans-split", "ans+event", "ans-part"):
             ops.append([name, draw(st.integers(0, 400))])
@@ -387,7 +410,8 @@ def histories(draw):
             ops.append([name, draw(st.sampled_from([0.1, 1.0, 9.9, 10.1, 29.9, 30.0, 31.0]))])
         else:
             ops.append([name])
-    return {"ops": ops, "k": draw(st.integers(0, 50)), "lenient": True}
+    return {"ops": ops, "k": draw(st.integers(0, 50)), "lenient": True, "hdr": draw(st.sampled_from(["title", "title", "lower", "upper"])),
+            "vdelay": draw(st.sampled_from([0.0, 0.0, 0.3]))}
 
 
 SPEC = Property(
